@@ -4,15 +4,15 @@ CONSTANTS
   MaxMsgs = 3
   MaxPerPub = 2
   MaxReads = 0
-  OccSet = {TRUE, FALSE}
+  OccSet = {TRUE}
   BatchSet = {2}
-  PathSet = {"async", "sync"}
-  MaxPauses = 1
+  PathSet = {"async"}
+  MaxPauses = 0
   MaxRestarts = 0
-  Kinds = {"waive", "stale", "equal", "future", "neg"}
-  Pols = {"leader", "none"}
+  Kinds = {"waive", "equal", "future"}
+  Pols = {"leader"}
   Vias = {"api"}
-  MaxHolds = 0
+  MaxHolds = 1
   MaxSnaps = 0
   MaxInstalls = 0
   Snap0Set = {"none"}
